@@ -4,7 +4,7 @@
 //   args[0] = hex of the file, args[1] = fuel (model side only), args[2] = ops, ';'-separated:
 //       h:<name hex> (has_directory) | g:<name hex> (get_stream) | n (directory names)
 // Answer: new=<ok | err:<class> | panic | alloc>[;<answer per op>…]; the op answers are
-//   0/1 | ok:<hex> / err:<class> / panic / alloc | n:<name hex>,…   (processing stops at a panic).
+//   0/1 | ok:<hex> / err:<class> / panic / alloc | n:<name hex>,…   (processing stops at a panic and at an error other than notfound).
 use crate::util::{hexstr, unhex};
 use std::panic::{catch_unwind, AssertUnwindSafe};
 use std::sync::atomic::Ordering;
@@ -73,7 +73,14 @@ pub fn run(args: &[&str]) -> String {
                         out.push(panic_kind().to_string());
                         break;
                     }
-                    Ok(Err(e)) => out.push(format!("err:{}", class(&e))),
+                    Ok(Err(e)) => {
+                        let c = class(&e);
+                        out.push(format!("err:{}", c));
+                        if c != "notfound" {
+                            // the sector cache may have grown before the error: stop here
+                            break;
+                        }
+                    }
                     Ok(Ok(b)) => out.push(format!("ok:{}", hex(&b))),
                 }
             }
